@@ -188,6 +188,7 @@ def c04(rec, tier):
     f4_exc.run_native_env(rec, F, S)
     f4_vm.synthetic_call_protocol(rec, F)
     f4_iter.run_error_not_dropped(rec, F)
+    f4_iter.run_stop_after_failure(rec, F)
     # the handler stack, the error and the frames are alive while a try is active
     f5_trace.run(rec, F, only_adts=("laythe_vm::fiber::Fiber", "laythe_vm::fiber::exception_handler::ExceptionHandler", "laythe_vm::fiber::call_frame::CallFrame"))
     T = f1_isa.run_tables(rec, F)
@@ -330,6 +331,7 @@ def c11(rec, tier):
     f4_iter.run_utf8(rec, F)
     f4_gc.growth_progress(rec, F)
     f4_iter.run_error_not_dropped(rec, F)
+    f4_iter.run_stop_after_failure(rec, F)
     f9_casts.run_bounds_checks(rec, F)
     # maps key by Value == and hash; lists relocate
     f10_parity.run_number_equality(rec, F, "unboxed")
@@ -375,6 +377,7 @@ def c17(rec, tier):
 def c18(rec, tier):
     F = D(rec)
     f4_vm.run_c18(rec, F)
+    f4_iter.run_stop_after_failure(rec, F)   # the traceback shows what happened up to the error, not after it
     T = f1_isa.run_tables(rec, F)
     f1_isa.run_width(rec, F, T)
     f1c_ops.run_scanner_lines(rec, SY(rec))
